@@ -27,4 +27,19 @@ def jobs():
     for bl in range(0, 4):
         js.append(Job("L1-block-option@len%d" % bl, "C09/c09.c", "c09_l1_block_option", UNITS, extra_src=EXTRA, defines=["BL=%d" % bl], unwind=12,
                       group="L1-block-option", desc="coap_get_block_b on every %d-byte Block2 value" % bl, bounds={"length": bl}))
+    # B1: server side of a Block1 upload (single-body mode), real coap_handle_request_put_block, concrete delivery orders
+    from jobs.C07 import UNITS as NU, EXTRA as NE, FS
+    cut = ["UNREACH_HANDLE_REQUEST", "UNREACH_HANDLE_RESPONSE", "UNREACH_SIGNALING", "UNREACH_OSCORE", "UNREACH_SESSION_FREE", "UNREACH_BLOCK_CLIENT", "UNREACH_LG_CRCV"]
+    rb = ["__CPROVER_file_local_coap_net_c_handle_request", "__CPROVER_file_local_coap_net_c_handle_response", "__CPROVER_file_local_coap_net_c_handle_signaling",
+          "coap_session_free", "coap_proxy_remove_association", "coap_block_new_lg_crcv", "coap_handle_response_send_block", "coap_handle_response_get_block"]
+    seqs = [(2, "01", 1, "quick"), (2, "0", 0, "quick"), (2, "10", 1, "quick"), (2, "001", 1, "quick"), (2, "011", 1, "thorough"),
+            (3, "012", 1, "quick"), (3, "021", 1, "quick"), (3, "0112", 1, "thorough"), (3, "201", 1, "thorough"), (3, "01", 0, "quick"), (3, "02", 0, "thorough")]
+    for nblk, sq, complete, tier in seqs:
+        for size1 in (1, 0):
+            for lastlen in ((5, 16) if tier == "quick" and sq in ("01", "012") else (5,)):
+                js.append(Job("B1-put@n%d-seq%s-%s-last%d" % (nblk, sq, "size1" if size1 else "nosize", lastlen), "C09/c09b.c", "c09_b1_put", NU, extra_src=NE,
+                              defines=["NBLK=%d" % nblk, "SEQLEN=%d" % len(sq), "SEQ={%s}" % ",".join(sq), "SIZE1=%d" % size1, "LASTLEN=%d" % lastlen, "COMPLETE=%d" % complete] + cut,
+                              remove_bodies=rb, unwind=50, flags=FS, group="B1-put", timeout=900, est_gb=3, tier=tier,
+                              desc="Block1 upload of %d blocks delivered in order %s (%s Size1, last block %d bytes): exact body, once" % (nblk, sq, "with" if size1 else "without", lastlen),
+                              bounds={"blocks": nblk, "order": sq, "size1": size1, "last": lastlen}))
     return js
